@@ -184,6 +184,8 @@ func (o Op) String() string {
 		x := ""
 		if o.N > 0 {
 			x = fmt.Sprintf("stop@%d", o.N)
+		} else if o.N < 0 {
+			x = "nil visitor"
 		}
 		for _, mu := range o.Muts {
 			c := ""
